@@ -83,10 +83,11 @@ func (t *T) String() string {
 
 // TermEnv resolves phis along a chosen path (phi -> chosen incoming value).
 type TermEnv struct {
-	Phi  map[*ssa.Phi]ssa.Value
-	Sub  map[ssa.Value]ssa.Value // inlined helpers: parameter -> argument, call result -> returned value
-	SubT map[ssa.Value]*T        // inlined helpers: call result -> its term, fixed at the call
-	memo map[ssa.Value]*T
+	Phi   map[*ssa.Phi]ssa.Value
+	Sub   map[ssa.Value]ssa.Value // inlined helpers: parameter -> argument, call result -> returned value
+	SubT  map[ssa.Value]*T        // inlined helpers: call result -> its term, fixed at the call
+	memo  map[ssa.Value]*T
+	inPhi map[*ssa.Phi]bool
 }
 
 // Val follows the path's phi choices and inlining substitutions to the value that v stands for.
@@ -221,6 +222,11 @@ func (e *TermEnv) term(v ssa.Value) *T {
 					if v := e.fieldOfStructValue(&ssa.UnOp{Op: token.MUL, X: al}, fa.Field, 0); v != nil {
 						return e.Term(v)
 					}
+					// a local that only ever received one whole struct value (a struct parameter spilled so that its
+					// fields can be addressed): its field is that value's field
+					if whole := wholeStructStore(al); whole != nil {
+						return &T{K: "field", Name: fieldName(fa.X.Type(), fa.Field), Args: []*T{e.Term(whole.Val)}}
+					}
 				}
 			}
 			a := e.Term(x.X)
@@ -255,8 +261,17 @@ func (e *TermEnv) term(v ssa.Value) *T {
 		}
 		return &T{K: "slice", Args: []*T{base, lo, hi}}
 	case *ssa.Phi:
-		if ch, ok := e.Phi[x]; ok {
-			return e.Term(ch)
+		if ch, ok := e.Phi[x]; ok && !e.inPhi[x] {
+			// (a path that starts at a loop header from its latch resolves the header's counters to
+			// values of the round before, which are made of those counters: the inner occurrence stays
+			// the opaque merged value)
+			if e.inPhi == nil {
+				e.inPhi = map[*ssa.Phi]bool{}
+			}
+			e.inPhi[x] = true
+			t := e.Term(ch)
+			delete(e.inPhi, x)
+			return t
 		}
 		return &T{K: "phi", Name: fmt.Sprintf("phi@b%d.%s", x.Block().Index, instrOrdinal(x))}
 	case *ssa.Alloc:
@@ -490,6 +505,16 @@ func evalTerm(t *T, asg map[string]*big.Int) (*big.Int, bool) {
 			r.Sub(x, y)
 		case token.MUL:
 			r.Mul(x, y)
+		case token.QUO:
+			if y.Sign() == 0 {
+				return nil, false
+			}
+			r.Quo(x, y)
+		case token.REM:
+			if y.Sign() == 0 {
+				return nil, false
+			}
+			r.Rem(x, y)
 		case token.AND:
 			r.And(x, y)
 		case token.OR:
@@ -842,4 +867,46 @@ func (e *TermEnv) structCopyOf(al *ssa.Alloc) *ssa.Alloc {
 		}
 	}
 	return nil
+}
+
+// wholeStructStore: the single store that gives the local struct al its value, when nothing else writes
+// the local or any of its fields and its address goes nowhere but into field reads.
+func wholeStructStore(al *ssa.Alloc) *ssa.Store {
+	if al.Referrers() == nil {
+		return nil
+	}
+	if _, ok := derefType(al.Type()).Underlying().(*types.Struct); !ok {
+		return nil
+	}
+	var whole *ssa.Store
+	for _, r := range *al.Referrers() {
+		switch x := r.(type) {
+		case *ssa.Store:
+			if x.Addr != ssa.Value(al) || whole != nil {
+				return nil
+			}
+			whole = x
+		case *ssa.FieldAddr:
+			if x.Referrers() != nil {
+				for _, rr := range *x.Referrers() {
+					switch y := rr.(type) {
+					case *ssa.UnOp:
+						if y.Op != token.MUL {
+							return nil
+						}
+					case *ssa.DebugRef:
+					default:
+						return nil // a field's address stored, passed on or written through
+					}
+				}
+			}
+		case *ssa.UnOp, *ssa.DebugRef:
+		default:
+			return nil
+		}
+	}
+	if whole == nil || whole.Block() != al.Parent().Blocks[0] {
+		return nil
+	}
+	return whole
 }
